@@ -31,9 +31,11 @@ RULE = ("Callables are discovered by introspection of rsatoolbox.rdm/.data/.mode
         "matrices, arrays, dicts, files. A case = {callable, argument recipe, seed for the "
         "library's own numpy draws, follow-ups}. (A) fingerprint (array bytes + descriptor values "
         "without the library-managed 'index') of every argument before == after the call; (B) "
-        "each follow-up of the menu {result,source} x {reorder, sort_by, append / Dataset.sort_by, "
-        "array write}, applied to an RDMs/Dataset/ndarray reachable from the result (resp. the "
-        "arguments), must leave the fingerprint of the other side unchanged. Non-trivial: an "
+        "each follow-up of the menu {result,source} x {reorder, sort_by (Dataset.sort_by), append, "
+        "write into the data array, write into an array-valued descriptor}, applied to an "
+        "RDMs/Dataset/ndarray reachable from the result (resp. the arguments), must leave the "
+        "fingerprint of the other side unchanged; ~55-70 % of the cases run the whole menu in a "
+        "generated order, the others a single entry (the shrunk form). Non-trivial: an "
         "argument with >=2 RDMs/rows/elements whose descriptor order is not sorted (so sorting "
         "acts) and at least one follow-up; distinct by SHA1 of the case.")
 ASSUMPTIONS = [
@@ -43,9 +45,11 @@ ASSUMPTIONS = [
     "reachable from the return value",
     "in-place mutators (reorder, sort_by, append, append_descriptor, Dataset.sort_by), the accessor "
     "get_vectors, raw container constructors and abstract stubs are excluded (listed in evidence)",
-    "follow-ups are the documented in-place operations and writes to data arrays "
-    "(dissimilarities / measurements / returned ndarrays); assignments into descriptor dicts are "
-    "not part of the property's follow-up set",
+    "follow-ups are the documented in-place operations and array writes (dissimilarities / "
+    "measurements / returned ndarrays / array-valued user descriptors); adding or replacing "
+    "entries of descriptor dicts is not part of the property's follow-up set",
+    "a clean refusal (exception) by the library is out of domain, never a C12 violation; "
+    "non-converging iterative routines are aborted by a watchdog and counted as inconclusive",
     "library draws from numpy's global RNG are seeded from the case",
 ]
 
@@ -429,12 +433,13 @@ for _e in ENTRIES.values():
         continue
     _q = _e.spec.get('_quick', 20)
     SUBCHECKS.append(SubCheck(_e.short, case_strategy(_e), check_case, classify, quick=_q,
-                              thorough=_q * 15,
+                              thorough=_e.spec.get('_thorough', _q * 15),
                               max_reject_frac=_e.spec.get('_max_reject', 0.3),
                               doc='%s [%s]' % (_e.key, category(_e))))
 
 
 def evidence_extra():
+    W.cleanup_tmp()
     covered, uncovered, out_of_scope = [], [], []
     for e in ENTRIES.values():
         if e.key in EXCLUDED:
